@@ -312,3 +312,33 @@ def ids_scope(level="quick"):
                         wfs["wb"] = wb
                     cfg = mkcfg(machines, obs, (100, 10), (100, 10), 2, 2)
                     yield "S-ids", mkcase(cfg, wfs)
+
+
+# -- S-buffer3: three observations around the buffer capacities (thorough)
+
+def buffer3_scope(level="thorough"):
+    wf_short = dag("single", [1])
+    wf_long = dag("chain2", [3, 2], [0])
+    hots = [(5, 3), (6, 3), (7, 3), (10, 3)]
+    colds = [(6, 2), (10, 3)]
+    sizes = [((1, 2), (1, 2), (2, 1)), ((2, 1), (2, 1), (2, 1)),
+             ((3, 1), (1, 2), (2, 2)), ((1, 3), (2, 1), (1, 1))]
+    starts = [(0, 0), (0, 1), (1, 2), (1, 4), (2, 2), (3, 6)]
+    for M in (2, 3):
+        machines = CLUSTERS[M][0]
+        for hot in hots:
+            for cold in colds:
+                for sz in sizes:
+                    for s2, s3 in starts:
+                        for wl in ("short", "long"):
+                            wa = wf_long if wl == "long" else wf_short
+                            obs = [mkobs("a", 0, sz[0][0], sz[0][1], 1, 1,
+                                         "wa"),
+                                   mkobs("b", s2, sz[1][0], sz[1][1], 1, 1,
+                                         "wb"),
+                                   mkobs("c", s3, sz[2][0], sz[2][1], 1, 1,
+                                         "wc")]
+                            cfg = mkcfg(machines, obs, hot, cold, 3, 3)
+                            yield "S-buffer3", mkcase(
+                                cfg, {"wa": wa, "wb": wf_short,
+                                      "wc": wf_short})
